@@ -2,6 +2,7 @@ package main
 
 import (
 	"encoding/binary"
+	"math/bits"
 	"strings"
 
 	"github.com/aead/siphash"
@@ -89,14 +90,14 @@ func queryObs(f *gcs.Filter, key [gcs.KeySize]byte, queries string) string {
 
 func filterObs(f *gcs.Filter) string {
 	b, _ := f.Bytes()
-	return u64s(uint64(f.N())) + " " + itoa(int(f.P())) + " " + u64s(gcs.VerifModulusNP(f)) + " " + hx(b)
+	return u64s(uint64(f.N())) + " " + itoa(int(f.P())) + " " + hx(b)
 }
 
 func execGcs(c Case) string {
 	a := c.Args
 	switch c.Op {
 	case "fr":
-		return u64s(gcs.VerifFastReduction(atou(a[0]), atou(a[1]), atou(a[2])))
+		return u64s(hk_gcs_FastReduction(atou(a[0]), atou(a[1]), atou(a[2])))
 	case "sip":
 		k := gkey(a[0])
 		return u64s(siphash.Sum64(unhx(a[1]), &k))
@@ -333,13 +334,13 @@ func genC13(r *Rng, tier string, emit func(Case)) {
 		for i := 0; i < N; i++ {
 			b := make([]byte, 8)
 			binary.LittleEndian.PutUint64(b, salt+uint64(i))
-			v := gcs.VerifFastReduction(siphash.Sum64(b, &key), modNP>>32, uint64(uint32(modNP)))
+			v, _ := bits.Mul64(siphash.Sum64(b, &key), modNP) // floor(h*NM/2^64): the specified mapping, independent of /repo
 			low[uint32(v)] = v
 		}
 		for q := uint64(1 << 50); q < 1<<50+20000000; q++ {
 			b := make([]byte, 8)
 			binary.LittleEndian.PutUint64(b, q)
-			v := gcs.VerifFastReduction(siphash.Sum64(b, &key), modNP>>32, uint64(uint32(modNP)))
+			v, _ := bits.Mul64(siphash.Sum64(b, &key), modNP) // floor(h*NM/2^64): the specified mapping, independent of /repo
 			if full, ok := low[uint32(v)]; ok && full != v {
 				e("gcs", "low32collision", hx(key[:]), "32", u64s(M), "seq:"+itoa(N)+":"+u64s(salt), hx(b)+";"+"seq:1600:"+u64s(q-800))
 				break
